@@ -333,7 +333,7 @@ func (g *gen) crdGraph(t int, spell string) []Rule {
 }
 
 // nc CRDs with different graphs; the declarations of the CRDs interleaved (declaration order is irrelevant to maps)
-func (g *gen) multiDecls(nc int, randomShare int) (decls []Decl, shape string) {
+func (g *gen) multiDecls(nc int, randomShare int, uniform bool) (decls []Decl, shape string) {
 	used := map[int]bool{}
 	var names []string
 	var per [][]Rule
@@ -351,7 +351,14 @@ func (g *gen) multiDecls(nc int, randomShare int) (decls []Decl, shape string) {
 		} else {
 			names = append(names, "random")
 		}
-		per = append(per, g.crdGraph(t, spells[g.r.Intn(len(spells))]))
+		sp := spells[g.r.Intn(len(spells))]
+		if uniform && sp != "short" && sp != "full" {
+			// a CRD's rules in ONE spelling where hooks are run: with mixed spellings two routes for a pair are cached
+			// under keys that differ in spelling only, SearchPathForRule then answers a request by whichever the map
+			// yields first - the chain asked for beforehand need not be the one the handler gets (both are valid)
+			sp = []string{"short", "full"}[g.r.Intn(2)]
+		}
+		per = append(per, g.crdGraph(t, sp))
 	}
 	// CRD numbers: not always 0,1,2
 	ids := []int{0, 1, 2, 3}
@@ -407,7 +414,7 @@ func (g *gen) multiCase() Input {
 	if g.r.Chance(35) {
 		nc = 3
 	}
-	decls, shape := g.multiDecls(nc, 20)
+	decls, shape := g.multiDecls(nc, 20, true)
 	// one hook for all CRDs (a quarter), or the bindings spread over two or three hooks
 	in := Input{Kind: "multi", Shape: shape, Spell: "per-crd", Decls: decls, NHooks: []int{1, 2, 2, 3}[g.r.Intn(4)]}
 	crds := crdsOf(decls)
@@ -421,6 +428,7 @@ func (g *gen) multiCase() Input {
 			hotB = (hotA + 1) % 4
 		}
 	}
+	reqSpell := map[int]string{}
 	for i := 0; i < nq; i++ {
 		a, b := hotA, hotB
 		if g.r.Chance(25) {
@@ -429,7 +437,16 @@ func (g *gen) multiCase() Input {
 				b = (a + 2) % 4
 			}
 		}
-		q := Req{Crd: order[i], Src: g.spell(commonVersions[a], "mixed", 1), Desired: g.spell(commonVersions[b], "mixed", 1), NReq: 1 + g.r.Intn(2), Plan: oks(4)}
+		// one spelling of the requests per CRD and case: the chain cache is searched by MATCHING versions (short and full
+		// spelling of a version match), so a pair asked in two spellings leaves two cached paths that both answer a later
+		// request - in a graph with two routes the operator may then serve the same request by either (map order), and the
+		// chain the harness asks for beforehand need not be the one the handler gets.  Both are valid chains; the
+		// comparison needs ONE.  The declared rules stay spelt short / full / mixed
+		if reqSpell[order[i]] == "" {
+			reqSpell[order[i]] = []string{"short", "full"}[g.r.Intn(2)]
+		}
+		sp := reqSpell[order[i]]
+		q := Req{Crd: order[i], Src: g.spell(commonVersions[a], sp, 1), Desired: g.spell(commonVersions[b], sp, 1), NReq: 1 + g.r.Intn(2), Plan: oks(4)}
 		if g.r.Chance(20) {
 			q.Plan[g.r.Intn(2)] = g.fault()
 		}
@@ -440,7 +457,7 @@ func (g *gen) multiCase() Input {
 
 func (g *gen) msearchCase() Input {
 	nc := 2 + g.r.Intn(3)
-	decls, shape := g.multiDecls(nc, 45)
+	decls, shape := g.multiDecls(nc, 45, false)
 	in := Input{Kind: "msearch", Shape: shape, Spell: "per-crd", Decls: decls, NHooks: 1 + g.r.Intn(3)}
 	crds := crdsOf(decls)
 	if g.r.Chance(30) {
